@@ -110,6 +110,12 @@ class SymBuilder:
                 cx.spec_mode -= 1
         return SpecFn(node.name, call)
 
+    def assume_rel(self, a, op, b):
+        """restrict the pre-state to a relation between scalars, e.g. assume_rel(f, ">", 0)"""
+        import ast
+        node = {"<": ast.Lt, "<=": ast.LtE, ">": ast.Gt, ">=": ast.GtE, "==": ast.Eq, "!=": ast.NotEq}[op]()
+        self.assume(ops.compare(self.ctx, node, a, b))
+
     def assume(self, cond):
         if isinstance(cond, Sym):
             self.ctx.assume(ops.truth_term(cond))
@@ -143,6 +149,42 @@ class SymBuilder:
 
     def isub(self, x, y):
         return self.ctx.binop(__import__("ast").Sub(), x, y, inplace=True)
+
+    def setitem(self, o, k, v):
+        self.ctx.setitem(o, k, v)
+
+    def vfs(self):
+        """the map path -> text of the modelled file system (pyvc/models/vfs.py); open()/os.path.* on paths below /vfs/ go there"""
+        return self.world.model_module("vfs").globals["FILES"]
+
+
+_NATIVE_VFS = {}
+
+
+def native_vfs():
+    """the same model natively: pyvc/models/vfs.py executed by CPython, builtins.open and os.path.isfile/exists/getsize, os.remove
+    redirected to it for paths below /vfs/ (all other paths go to the real functions); the map is emptied for every pre-state"""
+    import builtins, os
+    if not _NATIVE_VFS:
+        ns = {}
+        src = os.path.join(os.path.dirname(os.path.abspath(__file__)), "models", "vfs.py")
+        exec(compile(open(src).read(), src, "exec"), ns)
+        _NATIVE_VFS.update(ns)
+
+        def redirect(real, model):
+            def f(path, *a, **k):
+                if isinstance(path, str) and path.startswith("/vfs/"):
+                    return model(path, *a, **k)
+                return real(path, *a, **k)
+            return f
+        builtins.open = redirect(builtins.open, ns["File"])
+        os.path.isfile = redirect(os.path.isfile, ns["isfile"])
+        os.path.exists = redirect(os.path.exists, ns["isfile"])
+        os.path.getsize = redirect(os.path.getsize, ns["getsize"])
+        os.remove = redirect(os.remove, ns["remove"])
+        os.unlink = os.remove
+    _NATIVE_VFS["FILES"].clear()
+    return _NATIVE_VFS["FILES"]
 
 
 def native_lookup(qual):
@@ -234,6 +276,10 @@ class NativeBuilder:
     def specfn(self, fn):
         return fn
 
+    def assume_rel(self, a, op, b):
+        import operator
+        self.assume({"<": operator.lt, "<=": operator.le, ">": operator.gt, ">=": operator.ge, "==": operator.eq, "!=": operator.ne}[op](a, b))
+
     def assume(self, cond):
         if not cond:
             raise AssumptionFailed()
@@ -263,6 +309,12 @@ class NativeBuilder:
     def isub(self, x, y):
         x -= y
         return x
+
+    def setitem(self, o, k, v):
+        o[k] = v
+
+    def vfs(self):
+        return native_vfs()
 
 
 class AssumptionFailed(Exception):
